@@ -42,8 +42,9 @@ type sweep struct {
 	ctrl   ledgercontroller.Controller
 	ledger string
 	cur    string // last known snapshot of the swept ledger
-	nreq   int
-	replay []string
+	nreq    int
+	nledger int
+	replay  []string
 }
 
 type httpReq struct {
@@ -269,6 +270,7 @@ func (s *sweep) validScriptTx(r *Rng, v1form bool) *AJ {
 }
 
 type sweepRoute struct {
+	custom func(s *sweep, r *Rng) httpReq // own generator (path and body mutations specific to the route)
 	name   string
 	method string
 	path   func(s *sweep, r *Rng) string
@@ -324,7 +326,15 @@ func sweepRoutes() []sweepRoute {
 		{name: "v2.runQuery", method: "POST", path: constPath(v2 + "/queries/q1/run"), body: func(s *sweep, r *Rng) *AJ { return ajobj("vars", ajobj("a", ajstr("b"))) }, list: true},
 		{name: "v2.importLogs", method: "POST", path: constPath(v2 + "/logs/import"), body: func(s *sweep, r *Rng) *AJ { return ajobj("id", jint(1)) }, write: true},
 		{name: "v2.exportLogs", method: "POST", path: constPath(v2 + "/logs/export")},
-		{name: "v2.createLedger", method: "POST", path: constPath("/v2/l1"), body: func(s *sweep, r *Rng) *AJ { return ajobj("metadata", ajobj("a", ajstr("b"))) }},
+		{name: "v2.createLedger", method: "POST", path: func(s *sweep, r *Rng) string { return "/v2/" + s.freshLedger() }, body: ledgerConfigBody},
+		{name: "v2.createLedger.config", custom: genCreateLedger},
+		{name: "v2.createLedger.existing", method: "POST", path: constPath("/v2/l1"), body: ledgerConfigBody},
+		{name: "v2.ledgerName", custom: genLedgerName},
+		{name: "v2.deleteLedgerMetadata", method: "DELETE", path: constPath(v2 + "/metadata/a")},
+		{name: "v2.info", method: "GET", path: constPath("/v2/_info")},
+		{name: "v2.deleteBucket", custom: genBucketAdmin},
+		{name: "v1.info", method: "GET", path: constPath("/_info")},
+		{name: "v1.ledgerName", custom: genV1LedgerName},
 		{name: "v1.createTransaction", method: "POST", path: constPath(v1 + "/transactions"), body: func(s *sweep, r *Rng) *AJ {
 			if r.Chance(35) {
 				return s.validScriptTx(r, true)
@@ -351,6 +361,14 @@ func sweepRoutes() []sweepRoute {
 }
 
 func (s *sweep) gen(r *Rng, rt sweepRoute) httpReq {
+	if rt.custom != nil {
+		q := rt.custom(s, r)
+		q.Route = rt.name
+		if q.Hdr == nil {
+			q.Hdr = map[string]string{}
+		}
+		return q
+	}
 	q := httpReq{Method: rt.method, Route: rt.name, Write: rt.write, Hdr: map[string]string{}}
 	path := rt.path(s, r)
 	id := "1"
@@ -488,17 +506,194 @@ func (s *sweep) gen(r *Rng, rt sweepRoute) httpReq {
 	return q
 }
 
+
+// ---------------------------------------------------------------- ledger creation: name (path) and configuration (body)
+func (s *sweep) freshLedger() string {
+	s.nledger++
+	return fmt.Sprintf("nl%d", s.nledger)
+}
+func ledgerConfigBody(s *sweep, r *Rng) *AJ {
+	return ajobj("bucket", ajstr("_default"), "metadata", ajobj("a", ajstr("b")), "features", ajobj("HASH_LOGS", ajstr("DISABLED"), "ACCOUNT_METADATA_HISTORY", ajstr("SYNC")))
+}
+
+// bucket names: only names the bucket regexp rejects, or buckets the stand-in database knows (a well-formed unknown bucket would need
+// its schema migrated, which pgsem only does for the buckets given at boot: not a property of the code under test)
+var sweepBadBuckets = []string{"a b", "a/b", "é", "a.b", "a:b", "b2 ", "\x00", "a\nb", "$(x)", "a;drop", strings.Repeat("b", 64), strings.Repeat("b", 3000), "\"", "%"}
+var sweepOKBuckets = []string{"_default", "b2", ""}
+var sweepBadLedgerNames = []string{"a b", "a.b", "é", "a:b", "a$b", strings.Repeat("n", 64), strings.Repeat("n", 3000), "_", "_info", "_healthcheck", "%zz", "a%2Fb", "a\"b", "..", "a;b"}
+var sweepFeatureNames = []string{"FOO", "", "_", "__", "_HASH_LOGS", "HASH_LOGS_", "HASH__LOGS", "hash_logs", "HASH LOGS", "HASH_LOGS\x00", "é", strings.Repeat("F", 300), "MOVES_HISTORY_", "_MOVES_HISTORY", "A_", "_A"}
+var sweepFeatureValues = []string{"MAYBE", "", "on", "sync", "ON ", "1", "true", strings.Repeat("V", 300)}
+var sweepFeatures = []string{"HASH_LOGS", "MOVES_HISTORY", "MOVES_HISTORY_POST_COMMIT_EFFECTIVE_VOLUMES", "ACCOUNT_METADATA_HISTORY", "TRANSACTION_METADATA_HISTORY"}
+
+func genCreateLedger(s *sweep, r *Rng) httpReq {
+	q := httpReq{Method: "POST", Path: "/v2/" + s.freshLedger(), Hdr: map[string]string{}}
+	body := ledgerConfigBody(s, r)
+	feats := body.get("features")
+	switch k := r.Intn(12); k {
+	case 0:
+		q.Class = "ledger_bucket_invalid"
+		body.O[0].V = ajstr(Pick(r, sweepBadBuckets))
+		q.MustReject = true
+	case 1:
+		q.Class = "ledger_bucket_known"
+		body.O[0].V = ajstr(Pick(r, sweepOKBuckets))
+	case 2:
+		q.Class = "ledger_bucket_type"
+		body.O[0].V = otherType(r, 's')
+		q.MustReject = body.O[0].V.K != 'z'
+	case 3:
+		q.Class = "ledger_metadata_type"
+		body.O[1].V = Pick(r, []*AJ{ajobj("a", jint(1)), ajobj("a", ajobj()), ajobj("a", ajarr()), ajobj("a", ajbool(true)), ajarr(), ajstr("x"), jint(3)})
+		q.MustReject = true
+	case 4, 5:
+		q.Class = "ledger_feature_name"
+		feats.O = append(feats.O, aJKV{Pick(r, sweepFeatureNames), ajstr(Pick(r, []string{"SYNC", "DISABLED", "ON", ""}))})
+		q.MustReject = true
+	case 6:
+		q.Class = "ledger_feature_name_only"
+		body.O[2].V = ajobj(Pick(r, sweepFeatureNames), ajstr("SYNC"))
+		q.MustReject = true
+	case 7:
+		q.Class = "ledger_feature_value"
+		feats.O[0].V = ajstr(Pick(r, sweepFeatureValues))
+		q.MustReject = true
+	case 8:
+		q.Class = "ledger_feature_value_type"
+		feats.O[0].V = otherType(r, 's')
+		q.MustReject = feats.O[0].V.K != 'z'
+	case 9:
+		q.Class = "ledger_features_type"
+		body.O[2].V = Pick(r, []*AJ{ajarr(), ajstr("HASH_LOGS"), jint(1), ajbool(true), ajarr(ajstr("HASH_LOGS"))})
+		q.MustReject = true
+	case 10:
+		q.Class = "ledger_features_valid"
+		body.O[2].V = ajobj(Pick(r, sweepFeatures[3:]), ajstr(Pick(r, []string{"SYNC", "DISABLED"})))
+	default:
+		q.Class = "ledger_config_unknown_field"
+		body.O = append(body.O, aJKV{"zzUnknown", otherType(r, 0)})
+	}
+	q.Body = body.Text()
+	return q
+}
+
+// the ledger NAME in the path, on the routes that take it before any ledger exists
+func genLedgerName(s *sweep, r *Rng) httpReq {
+	name := Pick(r, sweepBadLedgerNames)
+	q := httpReq{Hdr: map[string]string{}, Class: "ledger_name_invalid"}
+	esc := url.PathEscape(name)
+	switch r.Intn(5) {
+	case 0, 1:
+		q.Method, q.Path, q.Body = "POST", "/v2/"+esc, ledgerConfigBody(s, r).Text()
+		q.MustReject = true
+	case 2:
+		q.Method, q.Path = "GET", "/v2/"+esc
+		q.MustReject = true
+	case 3:
+		q.Method, q.Path, q.Body = "PUT", "/v2/"+esc+"/metadata", `{"a":"b"}`
+		// updating the metadata of a ledger that does not exist is answered 204 (an UPDATE of zero rows): no effect, not counted as accepted-invalid
+	default:
+		q.Method, q.Path = "GET", "/v2/"+esc+"/transactions"
+		q.MustReject = true
+	}
+	return q
+}
+func genV1LedgerName(s *sweep, r *Rng) httpReq {
+	name := Pick(r, sweepBadLedgerNames)
+	q := httpReq{Hdr: map[string]string{}, Class: "ledger_name_invalid", Method: "GET", MustReject: true}
+	q.Path = "/" + url.PathEscape(name) + Pick(r, []string{"/stats", "/_info", "/transactions", "/accounts"})
+	return q
+}
+func genBucketAdmin(s *sweep, r *Rng) httpReq {
+	// never the buckets that exist: deleting them would (legitimately) take the swept ledger away
+	name := Pick(r, append(append([]string{}, sweepBadBuckets...), "nosuchbucket", "B2"))
+	q := httpReq{Hdr: map[string]string{}, Class: "bucket_admin_name"} // deleting / restoring a bucket that does not exist is a no-op (204)
+	if r.Bool() {
+		q.Method, q.Path = "DELETE", "/v2/_/buckets/"+url.PathEscape(name)
+	} else {
+		q.Method, q.Path = "POST", "/v2/_/buckets/"+url.PathEscape(name)+"/restore"
+	}
+	return q
+}
+
+// systematic pass: for every route with a body, every field of its valid body gets one type confusion, one boundary string and
+// (object members) one boundary key, so that each route x body-field pair is mutated at least once whatever the random stream does
+var sweepBoundaryKeys = []string{"", "_", "_X", "X_", "A__B", "é", " ", strings.Repeat("K", 300)}
+
+func (s *sweep) systematic(routes []sweepRoute) []httpReq {
+	var out []httpReq
+	r := NewRng(7)
+	for _, rt := range routes {
+		if rt.body == nil || rt.custom != nil {
+			continue
+		}
+		base := rt.body(s, r)
+		var slots []jslot
+		collectSlots(base, &slots)
+		for i := range slots {
+			for _, class := range []string{"field_type_confusion", "field_boundary_string", "field_boundary_key"} {
+				b := base.clone()
+				var ss []jslot
+				collectSlots(b, &ss)
+				sl := ss[i]
+				switch class {
+				case "field_type_confusion":
+					sl.set(otherType(r, sl.get().K))
+				case "field_boundary_string":
+					switch sl.key {
+					case "bucket":
+						sl.set(ajstr(Pick(r, sweepBadBuckets)))
+					case "timestamp":
+						sl.set(ajstr(Pick(r, apiBadTimes)))
+					default:
+						sl.set(ajstr(Pick(r, apiBoundaryStrings)))
+					}
+				default:
+					if sl.parent.K != 'o' {
+						continue
+					}
+					sl.parent.O[sl.idx].K = Pick(r, sweepBoundaryKeys)
+				}
+				q := httpReq{Method: rt.method, Route: rt.name, Write: rt.write, Hdr: map[string]string{}, Class: class, Body: b.Text()}
+				q.Path = strings.ReplaceAll(rt.path(s, r), "%ID%", map[string]string{"address": "alice", "id": "1", "": ""}[rt.idPos])
+				out = append(out, q)
+			}
+		}
+	}
+	// ledger creation: every boundary feature name / value, bucket and ledger name once (keys and path segments are not body fields)
+	add := func(class, path string, body *AJ, must bool) {
+		out = append(out, httpReq{Method: "POST", Route: "v2.createLedger.config", Hdr: map[string]string{}, Class: class, Path: path, Body: body.Text(), MustReject: must})
+	}
+	for _, n := range sweepFeatureNames {
+		b := ledgerConfigBody(s, r)
+		b.get("features").O = append(b.get("features").O, aJKV{n, ajstr("SYNC")})
+		add("ledger_feature_name", "/v2/"+s.freshLedger(), b, true)
+		add("ledger_feature_name_only", "/v2/"+s.freshLedger(), ajobj("features", ajobj(n, ajstr("DISABLED"))), true)
+	}
+	for _, v := range sweepFeatureValues {
+		b := ledgerConfigBody(s, r)
+		b.get("features").O[0].V = ajstr(v)
+		add("ledger_feature_value", "/v2/"+s.freshLedger(), b, true)
+	}
+	for _, bk := range sweepBadBuckets {
+		b := ledgerConfigBody(s, r)
+		b.O[0].V = ajstr(bk)
+		add("ledger_bucket_invalid", "/v2/"+s.freshLedger(), b, true)
+	}
+	for _, n := range sweepBadLedgerNames {
+		add("ledger_name_invalid", "/v2/"+url.PathEscape(n), ledgerConfigBody(s, r), true)
+		out = append(out, httpReq{Method: "GET", Route: "v1.ledgerName", Hdr: map[string]string{}, Class: "ledger_name_invalid", Path: "/" + url.PathEscape(n) + "/stats", MustReject: true})
+	}
+	return out
+}
+
 // ---------------------------------------------------------------- C36: amounts through every path
 type amtPath struct {
 	name string
 	v1   bool
 	body func(n *big.Int, dst string) *AJ
-	// lossy: known to go through float64 (the monitor is the same; only the tag differs)
-	floatForm bool
 }
 
 const amtScript = "vars {\n account $dst\n monetary $m\n}\nsend $m (\n source = @world\n destination = $dst\n)"
-const amtScriptNumber = "vars {\n account $dst\n number $n\n}\nsend [USD $n] (\n source = @world\n destination = $dst\n)"
 
 func amtPaths() []amtPath {
 	post := func(n *big.Int, dst string) *AJ {
@@ -513,7 +708,7 @@ func amtPaths() []amtPath {
 		{name: "v2.script.monetary-amount-string", body: func(n *big.Int, dst string) *AJ {
 			return ajobj("script", ajobj("plain", ajstr(amtScript), "vars", ajobj("dst", ajstr(dst), "m", ajobj("asset", ajstr("USD"), "amount", ajstr(n.String())))))
 		}},
-		{name: "v2.script.monetary-amount-number", floatForm: true, body: func(n *big.Int, dst string) *AJ {
+		{name: "v2.script.monetary-amount-number", body: func(n *big.Int, dst string) *AJ {
 			return ajobj("script", ajobj("plain", ajstr(amtScript), "vars", ajobj("dst", ajstr(dst), "m", ajobj("asset", ajstr("USD"), "amount", jbig(n)))))
 		}},
 		{name: "v1.script.var-string", v1: true, body: func(n *big.Int, dst string) *AJ {
@@ -616,9 +811,6 @@ func (s *sweep) amounts(n int, replay []amtCase) {
 		cs := L("amount", Q(p.name), amt.String())
 		viol := func(what string, exp, got string) {
 			tag := "[amount-readback]"
-			if p.floatForm {
-				tag = "[scriptv1-float64-amount]"
-			}
 			o.Violation("C36", cs, fmt.Sprintf("amount %s posted through %s: %s expected %s got %s %s", amt, p.name, what, exp, got, tag))
 		}
 		prefix := "/v2/amt"
@@ -749,7 +941,7 @@ func cmdHTTPSweep(args []string) int {
 	f := ParseFlags(args)
 	out := NewOut(f.Out)
 	defer out.Close()
-	st := NewStack(StackOpts{})
+	st := NewStack(StackOpts{Buckets: []string{"_default", "b2"}})
 	s := &sweep{st: st, out: out, r: NewRng(f.Seed), ctx: context.Background(), ledger: "l1"}
 	s.router = api.NewRouter(st.Sys, jwt.NewNoAuth(), nil, "verif", false, api.WithBulkerFactory(bulking.NewDefaultBulkerFactory()))
 	if f.Extra["focus"] == "amounts" {
@@ -792,7 +984,12 @@ func cmdHTTPSweep(args []string) int {
 		{Method: "POST", Path: "/l1/transactions", Body: `{"script":{"plain":"send [USD 1] (source = @world destination = @bob)","vars":{"x":1}}}`, Class: "v1_vars_type", Route: "v1.createTransaction", Write: true, MustReject: true},
 		{Method: "POST", Path: "/v2/l1/logs/import", Body: `{"id":`, Class: "body_invalid_json", Route: "v2.importLogs", Write: true, MustReject: true},
 	}
-	// the deterministic request stream of this seed: the confirmed witnesses first, then generated requests
+	fixed = append(fixed, s.systematic(routes)...)
+	for _, rt := range routes {
+		out.Stats["route_"+rt.name] += 0 // a route that is never mutated shows up with 0
+		out.Stats["route_mutated_"+rt.name] += 0
+	}
+	// the deterministic request stream of this seed: the confirmed witnesses and the systematic field pass first, then generated requests
 	seq := 0
 	next := func() (httpReq, string) {
 		var q httpReq
@@ -800,6 +997,7 @@ func cmdHTTPSweep(args []string) int {
 		if seq < len(fixed) {
 			q = fixed[seq]
 			q.Hdr = map[string]string{}
+			name = q.Route
 		} else {
 			rr := s.r.Fork()
 			rt := Pick(rr, routes)
@@ -837,6 +1035,9 @@ func cmdHTTPSweep(args []string) int {
 		s.check(q, s.do(q))
 		if name != "" {
 			out.Stats["route_"+name]++
+			if q.Class != "valid" {
+				out.Stats["route_mutated_"+name]++
+			}
 		}
 	}
 	return 0
